@@ -34,6 +34,22 @@ Proof. repeat split. Qed.
 Lemma relay_scan_ok : forall c, relay_scan_char c = (c =? ch_colon) || (c =? ch_dot) || is_digit c.
 Proof. intro c. unfold relay_scan_char, is_digit. cbn. now rewrite orb_false_r. Qed.
 
+(* every number and string of the detector the theorems are parametric in: a change of any
+   of them in comm.go changes what the theorems say, so it has to show up as a broken
+   obligation, not as a silently different statement *)
+Lemma detector_consts_pinned :
+  Consts.det_min_len = 24 /\ marker = bs "::TRZSZ:TRANSFER:" /\ Consts.det_finished_offset = 40 /\
+  Consts.det_finished_words = [bs "#CFG:"; bs "Saved"; bs "Cancelled"; bs "Stopped"; bs "Interrupted"] /\
+  Consts.det_prune_limit = 100 /\ Consts.det_prune_keep = 50 /\
+  Consts.det_id_min_len = 6 /\ Consts.det_plain_id_len = 13 /\ Consts.det_plain_suffix = bs "00" /\
+  Consts.det_win_id = bs "1" /\ Consts.det_win_id_len = 13 /\ Consts.det_win_suffix = bs "10" /\
+  Consts.det_rewrite_min_len = 13 /\ Consts.det_rewrite_suffix = bs "00" /\
+  Consts.det_retag_back = 2 /\ Consts.det_retag_char = 50 /\
+  Consts.det_relay_offset = 20 /\ Consts.det_relay_suffix = bs "#R" /\
+  Consts.det_client_old = bs "TRZSZ" /\ Consts.det_client_new = bs "TRZSZGO" /\
+  Consts.det_version_bits = 32.
+Proof. repeat split. Qed.
+
 (* ==================================================================================== *)
 (* byte-string library *)
 
